@@ -231,3 +231,74 @@ func VerifC04TwoTags() {
 }
 func VerifC04Deep() { c04Run(deriveCfg{depth: 3, maxStr: 1, shards: 1, twoTagMap: true}) }
 func VerifC04Long() { c04Run(deriveCfg{depth: 2, maxStr: 2, shards: 1}) }
+
+// VerifC04SiblingLifetime: the name and tags delivered for a scope are those of its derivation
+// for its whole life, whatever happens to scopes derived from it.  A tagged scope t, an untagged
+// child c = t.SubScope(x) (which may share t's tag storage), a tagged child d; c and d are used,
+// closed and retired by report passes while t and the root go on reporting.
+func VerifC04SiblingLifetime() {
+	rec := &vReporter{}
+	rk, rv := verifrt.String("root.tk", 1), verifrt.String("root.tv", 1)
+	k, v := verifrt.String("tk", 1), verifrt.String("tv", 1)
+	dk, dv := verifrt.String("dk", 1), verifrt.String("dv", 1)
+	for _, s := range []string{rk, rv, k, v, dk, dv} {
+		verifrt.Assume(verifrt.Not(hasDelim(s))) // the key-delimiter class is the recorded C05 finding
+	}
+	verifrt.Assume(verifrt.And(k != rk, verifrt.And(dk != rk, dk != k)))
+	root := newRootScope(ScopeOptions{Tags: map[string]string{rk: rv}, Reporter: rec,
+		OmitCardinalityMetrics: true, registryShardCount: 1}, 0)
+	t := root.Tagged(map[string]string{k: v})
+	c := t.SubScope("x")
+	d := t.Tagged(map[string]string{dk: dv})
+	use := func() {
+		root.Counter("r").Inc(1)
+		t.Counter("m").Inc(1)
+	}
+	check := func(label string) {
+		for _, cl := range rec.calls {
+			switch cl.name {
+			case "r":
+				verifrt.Assert(label+".root-tags", len(cl.tags) == 1 && cl.tags[rk] == rv)
+			case "m":
+				verifrt.Assert(label+".tagged-scope-tags", len(cl.tags) == 2 && cl.tags[rk] == rv && cl.tags[k] == v)
+			case "x.n":
+				verifrt.Assert(label+".subscope-tags", len(cl.tags) == 2 && cl.tags[rk] == rv && cl.tags[k] == v)
+			case "dn":
+				verifrt.Assert(label+".tagged-child-tags", len(cl.tags) == 3 && cl.tags[rk] == rv && cl.tags[k] == v && cl.tags[dk] == dv)
+			default:
+				verifrt.Assert(label+".only-derived-names", false)
+			}
+		}
+	}
+	c.Counter("n").Inc(1)
+	d.Counter("dn").Inc(1)
+	use()
+	root.reportRegistry()
+	check("c04.lifetime.before-close")
+	if verifrt.Choose("close.first", 2) == 0 {
+		c.(*scope).Close()
+	} else {
+		d.(*scope).Close()
+	}
+	use()
+	root.reportRegistry() // delivers the closed scope's last values and retires it
+	use()
+	root.reportRegistry()
+	c.(*scope).Close()
+	d.(*scope).Close()
+	root.reportRegistry()
+	use()
+	root.reportRegistry()
+	check("c04.lifetime.after-close")
+	nr, nm := 0, 0
+	for _, cl := range rec.calls {
+		if cl.name == "r" {
+			nr++
+		}
+		if cl.name == "m" {
+			nm++
+		}
+	}
+	verifrt.Assert("c04.lifetime.live-scopes-kept-reporting", nr == 4 && nm == 4)
+	verifrt.Reach("c04.lifetime.end")
+}
